@@ -897,6 +897,8 @@ func (g *scenGen) action(ftype string, flowIdx int, loc M) M {
 	case "call_webhook":
 		a["method"] = fw.Pick(r, []string{"GET", "POST"})
 		a["url"] = fw.Pick(r, []string{"http://localhost/?cmd=success", "http://localhost/?cmd=unavailable", "http://localhost/?cmd=badjson", "http://localhost/@(1/0)", "http://localhost/?x=@contact.name",
+			// not a URL the engine will call: no scheme, no host, other scheme, longer than 2048 characters, white space
+			"localhost/?cmd=success", "http://", "ftp://localhost/x", "mailto:bob@nyaruka.com", "http://localhost/?q=" + strings.Repeat("x", 2040), " ", "@contact.nope", "http://local host/",
 			// bodies that are a bare JSON value rather than an object
 			"http://localhost/?cmd=true", "http://localhost/?cmd=false", "http://localhost/?cmd=null", "http://localhost/?cmd=number", "http://localhost/?cmd=string", "http://localhost/?cmd=array", "http://localhost/?cmd=flags", "http://localhost/?cmd=empty"})
 		if r.Chance(0.5) {
@@ -929,8 +931,8 @@ func (g *scenGen) action(ftype string, flowIdx int, loc M) M {
 		a["result_name"] = g.resultName()
 	case "send_email":
 		a["addresses"] = []string{fw.Pick(r, []string{"bob@nyaruka.com", "@contact.urns.mailto", "@(1/0)", "  "})}
-		a["subject"] = "Hi " + fw.Pick(r, []string{"@contact.name", "there", "@(1/0)"})
-		a["body"] = "Body " + g.tpl()
+		a["subject"] = fw.Pick(r, []string{"Hi @contact.name", "Hi there", "Hi @(1/0)", "@contact.nope", " @(\"\") "})
+		a["body"] = fw.Pick(r, []string{"Body " + g.tpl(), "Body " + g.tpl(), "@contact.nope", " @(\"\") ", g.tpl()})
 		g.translate(loc, u, "subject", []string{"x"}, func() string { return "Sujet @contact.name" })
 	case "send_broadcast":
 		a["text"] = "B: " + g.tpl()
@@ -1169,7 +1171,9 @@ func (g *scenGen) trigger() {
 			"results": M{"role": M{"name": "Role", "value": "reporter", "category": "Reporter", "node_uuid": UUID4(r), "input": "a reporter", "created_on": "2000-01-01T00:00:00Z"}},
 		}
 		if r.Chance(0.5) {
-			t["history"] = M{"parent_uuid": UUID4(r), "ancestors": r.Range(1, 3), "ancestors_since_input": r.Range(0, 2)}
+			// how deep this session is in a chain of sessions starting sessions: both sides of the limit start_session enforces
+			anc := fw.Pick(r, []int{1, 2, 3, 4, 5, 6, 50})
+			t["history"] = M{"parent_uuid": UUID4(r), "ancestors": anc, "ancestors_since_input": fw.Pick(r, []int{0, 1, 2, 4, 5, 6, anc})}
 		}
 	default:
 		t["type"] = fw.Pick(r, []string{"campaign", "channel", "ticket", "optin"})
